@@ -16,7 +16,9 @@ type SimSink struct {
 	// FailAt >= 0: accept only bytes below this offset; a Write crossing it is short and
 	// fails, as a full disk does. -1: never fail.
 	FailAt int
-	Log    *Log
+	// FailErr is the error a failing Write returns (default ErrInjectedWrite).
+	FailErr error
+	Log     *Log
 	// Gate, if set, is called on entry of every Write (before anything is recorded) and
 	// may park the caller; used by the actor scheduler.
 	Gate func(p []byte)
@@ -58,6 +60,9 @@ func (s *SimSink) Write(p []byte) (int, error) {
 			n = 0
 		}
 		err = ErrInjectedWrite
+		if s.FailErr != nil {
+			err = s.FailErr
+		}
 		if s.Failed == 0 && s.OnFail != nil {
 			s.OnFail()
 		}
